@@ -147,3 +147,57 @@ def no_component_left_running(chk, prop="C18"):
                                 "registered components were not stopped in order before the leftovers",
                                 {"oracle": case, "observed": r["stops"]})
     return len(cases)
+
+
+def shutdown_with_misbehaving_components(chk, prop="C18"):
+    """Components that misbehave while the run command shuts down (restore_state on): a mixer
+    answering ill-typed / out-of-range volume or mute when the state is collected, and a backend
+    whose playback raises while a track is current.  Whatever they answer, run() returns an exit
+    status and leaves nothing running; with a merely odd mixer the state is still saved exactly once
+    (an unusable answer is stored as unknown)."""
+    base = {"hm": 1, "om": OK, "oa": OK, "early": 0, "obs": [OK], "oc": OK, "ofs": [OK], "restore": 1, "ol": LQUIT}
+    cases = []
+    for vol in (62.5, 62, 150, -3, "loud", None, 1e3, True):
+        cases.append(("mixer", dict(base, mixer_volume=vol)))
+    for mute in ("yes", 1, None, 0.5):
+        cases.append(("mixer", dict(base, mixer_mute=mute, ol=LKBD)))
+    cases.append(("mixer", dict(base, mixer_volume=33.3, mixer_mute="no", ol=LEXC)))
+    for fault in (0, 1):
+        for ol in (LQUIT, LKBD):
+            cases.append(("backend", dict(base, play=1, backend_fault=fault, ol=ol)))
+    results = c18.run_parallel("shutdown", [c for _, c in cases], per_case_timeout=40, jobs=6)
+    for i, (kind, case) in enumerate(cases):
+        r = results.get(i)
+        if r is None or r.get("skipped"):
+            continue
+        chk.count(1, nontrivial_key=("misbehaving", kind, repr(sorted(case.items()))))
+        chk.dist(f"misbehaving_{kind}_at_shutdown")
+        key = {"property": prop, "component": kind}
+        what_in = ({k: case[k] for k in ("mixer_volume", "mixer_mute") if k in case} if kind == "mixer"
+                   else {"backend playback.get_time_position raises at shutdown": bool(case["backend_fault"]),
+                         "a track is current": True})
+        if "hang" in r or "harness_error" in r:
+            chk.monitor_failure("shutdown_with_misbehaving_components", {**key, "hang": True},
+                                "RootCommand.run did not return", {"scenario": what_in, "oracle": case, "detail": r})
+            continue
+        obs = {k: r[k] for k in ("status", "escaped", "stops", "saves", "state_file", "left", "threads_left", "loop")}
+        if r["escaped"] or r["status"] not in (0, 1):
+            chk.monitor_failure("exit_status", {**key, "escaped": r["escaped"]},
+                                f"RootCommand.run raised {r['escaped']} instead of returning an exit status",
+                                {"scenario": what_in, "oracle": case, "observed": obs})
+        if r["left"] != 0 or r["threads_left"]:
+            chk.monitor_failure("no_component_left_running", key,
+                                f"{r['left']} actor(s) still registered when RootCommand.run returned",
+                                {"scenario": what_in, "oracle": case, "observed": obs})
+        if kind == "mixer" and (r["saves"] != 1 or not r["state_file"] or r["state_digest"] is None
+                                or r["state_digest"].get("unreadable")):
+            chk.monitor_failure("state_saved", {**key, "reply": "ill-typed-or-out-of-range"},
+                                "restore_state on, core running: the state was not saved exactly once because of "
+                                "what the mixer answered at shutdown",
+                                {"scenario": what_in, "oracle": case, "observed": obs})
+        if kind == "backend":
+            if "playing" not in r["loop"]:
+                chk.notes.append(f"{prop}: backend-fault scenario did not get a current track: {r['loop']}")
+            if case["backend_fault"] and r["saves"] == 0:
+                chk.dist("backend_fault_state_not_saved (outside the quantifier: noted)")
+    return len(cases)
